@@ -259,7 +259,7 @@ class Walker:
                 return hid
         return None
 
-    def call_local(self, fn_path, args, pc, top=False, closure_env=None):
+    def call_local(self, fn_path, args, pc, top=False, closure_env=None, arg_nodes=None):
         prog = self.prog
         shell = prog.bodies.get(fn_path)
         if shell is None or 'body' not in shell:
@@ -293,6 +293,13 @@ class Walker:
                 nm = names[0][0] if names else 'arg%d' % i
                 v = ('param', nm)
             self.bind(p['pat'], v, T)
+            if arg_nodes is not None and i < len(arg_nodes) and p['pat'].get('k') == 'Bind' and len(self.frames) > 1:
+                # parameter of an inlined callee: remember which argument expression it stands for (provenance across helpers)
+                saved = self.frames.pop()
+                try:
+                    self.emit('bind', arg_nodes[i], pc, name=p['pat']['n'], var=p['pat']['v'], value=v, param_of=fn_path, arg_node=arg_nodes[i])
+                finally:
+                    self.frames.append(saved)
         val, cont = self.ev(body_owner['body'], pc)
         # returns recorded in frame.returns
         rets = frame.returns
@@ -502,12 +509,28 @@ class Walker:
 
     def ev_For(self, n, pc):
         iv, ic = self.ev(n['iter'], pc)
+        # a loop over a small literal table (`for (flag, list) in [(A, &x.a), (B, &x.b)] {..}`) is unrolled: each row is a
+        # straight-line copy of the body with the pattern bound to that row
+        tab = iv
+        while isinstance(tab, tuple) and tab and tab[0] in ('some_of',) and False:
+            tab = tab[1]
+        if isinstance(tab, tuple) and tab and tab[0] == 'array' and 1 <= len(tab) - 1 <= 12 and not self._body_breaks(n['body']):
+            for row in tab[1:]:
+                self.bind(n['pat'], row, pc)
+                self.ev(n['body'], And(pc, ic))
+            return ('unit',), ic
         elem, facts = self.elem_of(iv, n['iter'], pc)
         self.loops.append(('for', n.get('hid'), iv, n))
         m = self.bind(n['pat'], elem, pc)
         self.ev(n['body'], And(pc, ic, facts))
         self.loops.pop()
         return ('unit',), ic
+
+    def _body_breaks(self, body):
+        for m in ir.walk(body):
+            if m.get('k') in ('Break', 'Continue', 'Return'):
+                return True
+        return False
 
     def ev_Break(self, n, pc):
         if 'e' in n:
@@ -915,7 +938,7 @@ class Walker:
         if is_local:
             ev = self.emit('call', n, pc, **data)
             if self.should_inline(path) and len(self.frames) <= self.max_depth:
-                val, c = self.call_local(path, args, pc)
+                val, c = self.call_local(path, args, pc, arg_nodes=n.get('args'))
                 ev.data['inlined'] = True
                 ev.data['value'] = val
                 if val is not None:
